@@ -72,7 +72,7 @@ inline void put_cx(Line &l, const Q &re, const Q &im) { l << re; l << im; }
 // family 13: the ops of property C13 (block adapter, hybrid backend, unblock, complex adapter);
 // family 17: the ops of property C17 (every adapter incl. the block adapter, as_preconditioner / amg row order)
 inline void gen_adapter_ops(Rng &rng, const Opts &o, std::vector<std::string> &lines, int family) {
-    long N = o.cases > 0 ? o.cases : (o.thorough() ? 3000 : 330);
+    long N = o.cases > 0 ? o.cases : (o.thorough() ? 12000 : 1200);
     static const std::vector<int> fam13 = { 3, 4, 5, 6, 7, 3, 5, 7 }, fam17 = { 0, 1, 2, 3, 8, 9, 10, 11, 12, 13, 0, 4 };
     const std::vector<int> &menu = family == 13 ? fam13 : fam17;
     static const std::vector<std::string> idx = { "int", "long", "unsigned", "size_t", "ptrdiff_t" };
